@@ -26,7 +26,7 @@ class P(Prop):
             "random well-formed requests (values with ': ', bodies starting with a blank line); gethdr: case-insensitive lookup.  Oracle "
             "(implementation only): well-formed => accepted and equal to the original; bad request line / non-UTF-8 request line => Err; lookup "
             "= first header whose ASCII-lowercased name matches.  Non-trivial = an OK parse with at least one header, distinct by case line.")
-    ASSUMPTIONS = ["case mapping is modelled on ASCII; inputs containing the code points that upper/lower-case into ASCII letters (%s) are excluded from the generators" % CASE_HAZARD]
+    ASSUMPTIONS = ["case mapping: the model uses the toolchain's own table for every character (GenUnicase); the one context rule of str::to_lowercase, the final sigma, is not modelled and U+03A3 is kept out of compared cases; the Python oracles abstain on the code points whose mapping Python and Rust may not share (%s)" % CASE_HAZARD]
 
     def tok(self, rnd, k, alph=ALPH):
         return bytes(rnd.choice(alph) for _ in range(rnd.randint(0, k)))
@@ -77,7 +77,10 @@ class P(Prop):
                 # near misses of the request line
                 line = rnd.choice([b"GET /", b"GET", b"", b"GET  / HTTP/1.1", b"FOO / HTTP/1.1", b"GET / HTTP/3.0", b"GET / http/1.1", b"get / HTTP/1.1", b" GET / HTTP/1.1",
                                    b"GET / HTTP/1.1 ", b"GET / HTTP/1.1 x", b"GET /a b HTTP/1.1", b"G\xc3\x89T / HTTP/1.1", b"GET /\xff HTTP/1.1", b"GET /\xc3\xa9 HTTP/1.1",
-                                   b"\xe2\x80\xa8GET / HTTP/1.1", b"GET\t/\tHTTP/1.1", b"GET / HTTP/1.1\r", b"PATCH /x HTTP/0.9", b"OPTIONS * HTTP/2.0"])
+                                   b"\xe2\x80\xa8GET / HTTP/1.1", b"GET\t/\tHTTP/1.1", b"GET / HTTP/1.1\r", b"PATCH /x HTTP/0.9", b"OPTIONS * HTTP/2.0",
+                                   # letters whose upper case lands in ASCII: the long s, the dotless i (the method and version are upper-cased before the lookup)
+                                   "optionſ / HTTP/1.1".encode(), "poſt /x HTTP/1.1".encode(), "delete / HTTP/1.1".encode(), "connect / HTTP/1.1".encode(), "trace / HTTP/1.1".encode(),
+                                   "ſ / HTTP/1.1".encode(), "GET / HTTP/1.1".replace("H", "Η").encode(), "PΟST / HTTP/1.1".encode(), "ԍET / HTTP/1.1".encode(), "get / http/1.1".replace("p", "ｐ").encode()])
                 out.append("parse " + hx(line + rnd.choice([b"\r\n\r\n", b"\n\n", b"", b"\r\nA: b\r\n\r\nbody"])) + " # nearmiss=1")
             elif r < 0.92:
                 # well-formed request for the round trip
@@ -96,9 +99,9 @@ class P(Prop):
                 hspec = ";".join(hx(nm) + ":" + hx(b"v%d" % k) for k, nm in enumerate(names)) or "-"
                 q = rnd.choice([b"host", b"Host", b"X-a", b"RANGE", b"missing", "ü".encode()])
                 if rnd.random() < 0.25:
-                    # letter case outside ASCII (Latin-1, Cyrillic, Greek without sigma: one-to-one mappings on which Python's and Rust's
-                    # tables agree): implementation only, the model's case mapping is ASCII (see ASSUMPTIONS)
-                    base = rnd.choice(["x-ключ", "größe-é", "ñandú", "x-αβγ", "ÿ-þ", "x-ж1", "ü"])
+                    # letter case outside ASCII: compared with the model (its case mapping is the toolchain's table) and judged by an oracle on
+                    # Latin-1, Cyrillic and Greek without sigma, where Python's and Rust's tables agree
+                    base = rnd.choice(["x-ключ", "größe-é", "ñandú", "x-αβγ", "ÿ-þ", "x-ж1", "ü", "x-ǆ", "ԱԲ", "ⴀⴁ", "ｘ-ａ"])
                     def recase(t): return "".join(rnd.choice([c.lower(), c.upper() if len(c.upper()) == 1 else c]) for c in t)
                     names = [recase(base).encode() if rnd.random() < 0.7 else rnd.choice([b"Host", b"X-A"]) for _ in range(rnd.randint(1, 4))]
                     hspec = ";".join(hx(nm) + ":" + hx(b"v%d" % k) for k, nm in enumerate(names))
@@ -107,13 +110,6 @@ class P(Prop):
                     continue
                 out.append("gethdr %s %s" % (hspec, hx(q)))
         return out
-
-    # lookups whose names differ in the case of non-ASCII letters: the model's case mapping is ASCII, so these go to the implementation only
-    def model_input(self, line, impl_out):
-        return "noop" if "unicase=1" in line else line
-
-    def canon(self, line, out):
-        return "SKIP" if "unicase=1" in line else out
 
     def classify(self, line, out, sig):
         return {"request-line-with-empty-target-accepted": "C14-F1"}.get(sig)
